@@ -29,7 +29,7 @@ Succs(T, i) ==
          [] kind = "ST" -> {STStep(P, pid)}
          [] kind = "TP" -> {TPStep(P, pid)}
          [] kind = "WK" -> {WKStep(P, pid)}
-         [] kind = "AT" -> {ATStep(P, pid, c.pv, c.prop, c.W, c.d) : c \in ATChoices(P, pid)}
+         [] kind = "AT" -> {ATStep(P, pid, c.pv, c.prop, c.ord, c.d) : c \in ATChoices(P, pid)}
          [] kind = "H2C" -> {H2CStep(P, pid)}
          [] kind = "C2H" -> {C2HStep(P, pid)}
          [] OTHER -> {}
